@@ -3,7 +3,9 @@ package sim
 import (
 	"fmt"
 	"os"
+	"regexp"
 	"sort"
+	"strings"
 	"time"
 
 	"github.com/apache/yunikorn-core/pkg/entrypoint"
@@ -55,15 +57,15 @@ type Sim struct {
 	nAsk  int
 	nNode int
 
-	violations []Violation
-	probes     map[string]int
-	faults     map[string]int
-	simStart   time.Time
-	drained    bool
-	stateSet   map[uint64]bool
-	notes      []string
-	sortChecks int
-	restarts   int
+	violations   []Violation
+	probes       map[string]int
+	faults       map[string]int
+	simStart     time.Time
+	drained      bool
+	stateSet     map[uint64]bool
+	notes        []string
+	sortChecks   int
+	restarts     int
 	confirmDelay map[string]int
 	lateConfirms []Op
 	everBound    int
@@ -77,7 +79,70 @@ func (s *Sim) probe(name string) { s.probes[name]++ }
 
 func (s *Sim) violate(prop, clause, sig, format string, args ...any) {
 	v := Violation{Prop: prop, Clause: clause, Msg: fmt.Sprintf(format, args...), Step: s.step, Sig: prop + ":" + clause + ":" + sig}
+	if t := s.taintOf(v.Msg); t != "" {
+		v.Sig += "@" + t
+	}
 	s.violations = append(s.violations, v)
+}
+
+var (
+	reAppID = regexp.MustCompile(`app-\d+`)
+	reNode  = regexp.MustCompile(`node ([A-Za-z0-9]+)`)
+	reQueue = regexp.MustCompile(`queue (root[A-Za-z0-9_.@-]*)`)
+)
+
+// taintOf: does the violation concern an application whose history contains one of the known
+// in-flight placeholder swap triggers (see known_findings.json)? The subject applications are taken
+// from the message: application ids, the applications with allocations on a named node, the
+// applications below a named queue, all of them for the root totals.
+func (s *Sim) taintOf(msg string) string {
+	t := s.shim.Tainted
+	if len(t) == 0 {
+		return ""
+	}
+	apps := map[string]bool{}
+	for _, a := range reAppID.FindAllString(msg, -1) {
+		apps[a] = true
+	}
+	for _, m := range reNode.FindAllStringSubmatch(msg, -1) {
+		for _, al := range s.shim.Allocs {
+			if al.Node == m[1] {
+				apps[al.App] = true
+			}
+		}
+	}
+	for _, m := range reQueue.FindAllStringSubmatch(msg, -1) {
+		for _, snap := range []*Snap{s.pre, s.post} {
+			if snap == nil {
+				continue
+			}
+			for id, a := range snap.Apps {
+				if a.Queue == m[1] || strings.HasPrefix(a.Queue, m[1]+".") {
+					apps[id] = true
+				}
+			}
+			for id, a := range snap.Done {
+				if a.Queue == m[1] || strings.HasPrefix(a.Queue, m[1]+".") {
+					apps[id] = true
+				}
+			}
+		}
+	}
+	if strings.Contains(msg, "root allocated") {
+		for id := range t {
+			apps[id] = true
+		}
+	}
+	kinds := map[string]bool{}
+	for a := range apps {
+		if k, ok := t[a]; ok {
+			kinds[k] = true
+		}
+	}
+	if len(kinds) == 0 {
+		return ""
+	}
+	return strings.Join(sortedKeys(kinds), "+")
 }
 
 func (s *Sim) faultOn(kind string) bool { return s.cfg.Faults[kind] }
@@ -233,6 +298,14 @@ func (s *Sim) exec(op Op) {
 				sh.Allocs[a.Key] = m
 			} else {
 				// same key again: a retry, or an in-place update
+				if s.post != nil && ex.Status == stPending {
+					if ap := s.post.Apps[ex.App]; ap != nil {
+						if ask := ap.Asks[ex.Key]; ask != nil && ask.ReleaseKey != "" {
+							sh.taint(ex.App, "update-during-swap")
+							s.probe("ask_updated_during_swap")
+						}
+					}
+				}
 				if !ex.Res.Eq(a.Res) && op.Fault != "req_dup" {
 					ex.Res = a.Res.Clone()
 				} else {
@@ -250,6 +323,15 @@ func (s *Sim) exec(op Op) {
 				f.Status = stGone
 			}
 		} else if m := sh.Allocs[op.Key]; m != nil && m.Status != stGone {
+			if s.post != nil {
+				if a := s.post.Apps[m.App]; a != nil {
+					if ask := a.Asks[m.Key]; ask != nil && ask.ReleaseKey != "" && !ask.Placeholder && m.Status == stPending {
+						m.ReleasedDuringSwap = true
+						sh.taint(m.App, "ask-released-during-swap")
+						s.probe("ask_released_during_swap")
+					}
+				}
+			}
 			m.WasBound = m.live()
 			m.ReleaseSent = true
 			m.Status = stGone
